@@ -235,6 +235,7 @@ var lexPieces = []string{
 	"0x00000000000000001", "0x0000000000000000000ff", "0x0ffffffffffffffff", "9007199254740993", "18446744073709551615", "18446744073709551616",
 	"'\\u0041'", "\"\\u0027\"", "0.5.5", "0..5", "00.1.2",
 	"\xa0", "\x85", " \xa0", "\n\x85", "\ufeff", "00e5", "000e-3", "00E0", "0.0e5", "00.5e1", "0e5",
+	"1e0002147483647", "1e-0002147483647", "1e00000000309", "1e000000", "2e+0000000000000000001",
 	"\ufffd", "\ufffc", "\ufffe", "a\ufffd", " \ufffd ", "\u2028", "\u2029", "\u0085", "\u3000", "\u200b", "\u00ad", "\xc0\xaf", "\xed\xa0\x80", "\xf4\x90\x80\x80", "e\u0301", "'e\u0301'", "`\u2028`",
 	"2147483647", "2147483648", "4294967295", "4294967296", "9223372036854775807", "9223372036854775808", "0x7fffffffffffffff", "0x8000000000000000", "0xffffffff", "1e308", "1e309", "4.9e-324",
 	"/*", "*/", "/* c */", "/* c;\n d */", "AND", "Or", "IN", "By", "aNd",
